@@ -43,7 +43,7 @@ def unary_forms(a):
         (f"({t})()", "Call0"), (f"({t})(k=1)", "CallKw"), (f"({t})[0]", "SubIdx"), (f"({t})['k']", "SubKey"),
         (f"({t})[1:2]", "SubSlice"), (f"lambda q: ({t})", "Lambda"), (f"lambda e: ({t})", "LambdaShadow"), (f"[{t}]", "List1"), (f"({t},)", "Tuple1"),
         (f"{{'k': ({t})}}", "Dict1"), (f"{{'jet-pt': ({t})}}", "DictHyphen"), (f"{{'class': ({t})}}", "DictKeyword"),
-        (f"{{'': ({t})}}", "DictEmptyKey"), (f"{{'a b': ({t})}}", "DictSpace"), (f"({t}).m()", "Method0"),
+        (f"{{'': ({t})}}", "DictEmptyKey"), (f"{{'self': ({t}), 'cls': 1}}", "DictSelfKey"), (f"{{'__debug__': ({t})}}", "DictDebugKey"), (f"{{'self': ({t})}}.self", "DictSelfKeyAttr"), (f"{{'a b': ({t})}}", "DictSpace"), (f"({t}).m()", "Method0"),
         (f"({t},)[0]", "TupLitIdx"), (f"{{'k': ({t})}}.k", "DictLitAttr"), (f"{{'k': ({t})}}['k']", "DictLitKey"),
         (f"({t}).x[0](1)", "CallOfSubscriptOfAttr"),
         # methods python's own value types really have (with defaults the caller leaves out / with no inspectable signature)
